@@ -3,6 +3,7 @@
 package c03
 
 import (
+	"go.dedis.ch/kyber/v4/compatible"
 	"bytes"
 	"fmt"
 
@@ -24,7 +25,7 @@ func runAdvertised(c *vf.Check) {
 	for _, ps := range []struct {
 		n string
 		p func() *ev.Param
-	}{{"Curve1174", ev.Param1174}, {"Ed25519", ev.ParamEd25519}, {"E-382", ev.ParamE382}, {"Curve41417", ev.Param41417}, {"E-521", ev.ParamE521}} {
+	}{{"Curve1174", ev.Param1174}, {"Ed25519", ev.ParamEd25519}, {"E-382", ev.ParamE382}, {"Curve41417", ev.Param41417}, {"E-521", ev.ParamE521}, {"Ed448-Goldilocks (caller-supplied Param, 57-byte points)", paramEd448}} {
 		for _, full := range []bool{false, true} {
 			ps, full := ps, full
 			cfgs = append(cfgs,
@@ -73,4 +74,21 @@ func runAdvertised(c *vf.Check) {
 		c.Count("transitions", 12)
 		c.Nontrivial(k.name)
 	})
+}
+
+// paramEd448: Ed448-Goldilocks (RFC 8032 / RFC 7748: p = 2^448 - 2^224 - 1, a = 1, d = -39081, cofactor 4), a curve
+// the package does not ship, supplied through the exported Param struct; its point encoding has an odd number of bytes.
+func paramEd448() *ev.Param {
+	var p ev.Param
+	p.Name = "Ed448-Goldilocks"
+	p.P.SetString("726838724295606890549323807888004534353641360687318060281490199180612328166730772686396383698676545930088884461843637361053498018365439", "", 10)
+	p.Q.SetString("181709681073901722637330951972001133588410340171829515070372549795146003961539585716195755291692375963310293709091662304773755859649779", "", 10)
+	p.R = 4
+	p.A.SetInt64(1)
+	var d compatible.Int
+	d.SetInt64(39081)
+	p.D.Int.Sub(&p.P.Int, &d.Int)
+	p.PBX.SetString("224580040295924300187604334099896036246789641632564134246125461686950415467406032909029192869357953282578032075146446173674602635247710", "", 10)
+	p.PBY.SetString("298819210078481492676017930443930673437544040154080242095928241372331506189835876003536878655418784733982303233503462500531545062832660", "", 10)
+	return &p
 }
